@@ -804,13 +804,32 @@ func (fx *FnExec) loaded(t types.Type, term string) string {
 			}
 		}
 	}
-	// a value read from an untouched initial heap array existed before this activation
+	// a value read from an untouched initial heap array, out of an object that itself existed
+	// before this activation, existed before this activation
 	if initialHeapTerm(term) {
 		if inv := fx.refInv(t, n); inv != "true" {
-			fx.assume(inv)
+			if base := selectIndexOf(term); base != "" {
+				fx.assume(implies("(< "+base+" "+fx.allocBase()+")", inv))
+			}
 		}
 	}
 	return n
+}
+
+// selectIndexOf: for "(select H idx)" with a simple heap symbol H returns idx; "" otherwise.
+func selectIndexOf(term string) string {
+	if !strings.HasPrefix(term, "(select ") {
+		return ""
+	}
+	rest := term[len("(select ") : len(term)-1]
+	h, j := readSexp(rest, 0)
+	if strings.HasPrefix(h, "(") {
+		// nested select: (select (select E arr) idx): the object is arr
+		inner := strings.TrimSuffix(strings.TrimPrefix(h, "(select "), ")")
+		_, k := readSexp(inner, 0)
+		return strings.TrimSpace(inner[k:])
+	}
+	return strings.TrimSpace(rest[j:])
 }
 
 var heapVerRe = regexp.MustCompile(`[A-Z]+_[A-Za-z0-9_]+?_(v|h|m)_[0-9]+`)
